@@ -89,7 +89,10 @@ func genC12(r *sim.Rng, i int) *c12Case {
 		}
 	case 1:
 		c.Kind = "input"
-		c.Cmd = r.Pick([]string{"show version", "show ip interface brief | include up", "x"})
+		c.Cmd = r.Pick([]string{"show version", "show ip interface brief | include up", "x", "terminal width 511", "set cli pager off", "show vlan all"})
+		if r.Chance(1, 3) {
+			c.Segs, c.DefSeg = nil, sim.SegAllButLast // the last byte of every burst arrives alone
+		}
 		c.Eager = r.Chance(1, 3)
 		if c.DelayUS == 0 {
 			c.DelayUS = 300
